@@ -21,6 +21,10 @@ import (
 type Cond struct {
 	Expr ast.Expr
 	Neg  bool
+	// FromExit: the conjunct comes from an earlier `if c { return }` of an enclosing block, not from a
+	// condition enclosing the statement. Rules may drop such a conjunct when it speaks about terms they
+	// do not model (it restricts the paths considered, it does not change the guard being checked).
+	FromExit bool
 }
 
 // PathCond computes the path condition of the innermost statement containing
@@ -47,14 +51,14 @@ func splitCond(c Cond) []Cond {
 		e = p.X
 	}
 	if u, ok := e.(*ast.UnaryExpr); ok && u.Op == token.NOT {
-		return splitCond(Cond{u.X, !c.Neg})
+		return splitCond(Cond{Expr: u.X, Neg: !c.Neg, FromExit: c.FromExit})
 	}
 	if b, ok := e.(*ast.BinaryExpr); ok {
 		if (b.Op == token.LAND && !c.Neg) || (b.Op == token.LOR && c.Neg) {
-			return append(splitCond(Cond{b.X, c.Neg}), splitCond(Cond{b.Y, c.Neg})...)
+			return append(splitCond(Cond{Expr: b.X, Neg: c.Neg, FromExit: c.FromExit}), splitCond(Cond{Expr: b.Y, Neg: c.Neg, FromExit: c.FromExit})...)
 		}
 	}
-	return []Cond{{e, c.Neg}}
+	return []Cond{{Expr: e, Neg: c.Neg, FromExit: c.FromExit}}
 }
 
 func pathCond(file *ast.File, body *ast.BlockStmt, pos token.Pos) (conds []Cond, complex bool) {
@@ -77,13 +81,13 @@ func pathCond(file *ast.File, body *ast.BlockStmt, pos token.Pos) (conds []Cond,
 			}
 		case *ast.IfStmt:
 			if child == ast.Node(s.Body) {
-				conds = append(conds, Cond{s.Cond, false})
+				conds = append(conds, Cond{Expr: s.Cond})
 			} else if s.Else != nil && child == ast.Node(s.Else) {
-				conds = append(conds, Cond{s.Cond, true})
+				conds = append(conds, Cond{Expr: s.Cond, Neg: true})
 			}
 		case *ast.ForStmt:
 			if child == ast.Node(s.Body) && s.Cond != nil {
-				conds = append(conds, Cond{s.Cond, false})
+				conds = append(conds, Cond{Expr: s.Cond})
 			}
 		case *ast.CommClause:
 			if child != nil && child != ast.Node(s.Comm) {
@@ -111,7 +115,7 @@ func precedingExits(list []ast.Stmt, upto ast.Node) (conds []Cond, complex bool)
 		switch s := st.(type) {
 		case *ast.IfStmt:
 			if terminates(s.Body) && s.Else == nil {
-				conds = append(conds, Cond{s.Cond, true})
+				conds = append(conds, Cond{Expr: s.Cond, Neg: true, FromExit: true})
 				continue
 			}
 			if containsJump(s) {
